@@ -36,7 +36,8 @@ def build(vx):
     return mine
 
 
-def run_family(binary, family, tier, seed, timeout=900):
+def run_family(binary, family, tier, seed, timeout=None):
+    timeout = timeout or (3600 if tier == "thorough" else 900)
     cmd = [binary, "family", family, "--seed", str(seed or 1), "--max-report", "8"]
     if tier == "thorough":
         cmd += ["--scale", "10"]
